@@ -9,4 +9,5 @@ python3 tools/translate_all.py
 ( cd coq && coq_makefile -f _CoqProject -o Makefile >/dev/null && timeout 3000 make -j16 )
 [ -f harness/Cargo.lock ] || cp /repo/Cargo.lock harness/Cargo.lock
 ( cd harness && RUSTFLAGS="--cfg probminhash_verif" cargo build --release --offline )
+python3 -c "import vlib,sys; ok,log=vlib.build_modelrun(); print('modelrun',ok); sys.exit(0 if ok else 1)"
 echo setup-ok
